@@ -792,6 +792,10 @@ static void chunkqueue_dup_file_chunk_fd (chunk * const restrict d, const chunk 
             ++d->file.view->refcnt;
       #endif
     }
+    else if (c->file.is_temp) {
+        /* tempfile is unlinked when c is released: keep data readable for d */
+        d->file.fd = fdevent_open_cloexec(c->mem->ptr, 1, O_RDONLY, 0);
+    }
 }
 
 __attribute_noinline__
